@@ -458,6 +458,63 @@ def pc_vars(ctx):
            'location')
 
 
+def pc_readback(ctx):
+    R = 'PC-READBACK'
+    ctx.rule(R, 'what bfg9000 itself reads back and fills in: pkg-config '
+             'output (which is backslash-escaped, never quoted) is split '
+             'with escapes enabled; the auto-filled includes/libs of a '
+             'package are the explicitly installed files (implicitly '
+             'installed dependencies only reach Libs.private by forwarding)')
+    repo = ctx.repo
+    F = _facts(ctx)
+    mod = repo.modules['bfg9000.tools.pkg_config']
+    n = 0
+    for c in ast.walk(mod.tree):
+        if not isinstance(c, ast.Call):
+            continue
+        ty = Q.kwarg(c, 'type')
+        if ty is None or not unparse(ty).endswith('option_list'):
+            continue
+        fn = repo.enclosing_func(c)
+        if fn is None:
+            continue
+        r = repo.resolve_expr(mod, c.func)
+        fq = r[1].fq if r and r[0] == 'func' else unparse(c.func)
+        if not fq.startswith('bfg9000.shell.'):
+            continue
+        n += 1
+        esc = Q.kwarg(c, 'escapes')
+        ok = fq.endswith(':split') and isinstance(esc, ast.Constant) and \
+            esc.value is True
+        ctx.ob(R, fn.fq + '|flags-split-with-escapes', ok, c,
+               'pkg-config output is split by {} without escapes=True: '
+               '`-I/a\\ b` becomes two words'.format(unparse(c.func)))
+    ctx.ob(R, 'tools.pkg_config|splitters-found', n >= 1, None,
+           'no option_list splitter found in tools/pkg_config.py')
+    f = F.fn('bfg9000.builtins.pkg_config:finalize_pkg_config')
+    for key in ('includes', 'libs'):
+        vals = []
+        for d in ast.walk(f.node):
+            if isinstance(d, ast.Dict):
+                for k, v in zip(d.keys, d.values):
+                    if isinstance(k, ast.Constant) and k.value == key:
+                        vals.append(v)
+            elif isinstance(d, ast.Assign) and any(
+                    isinstance(t, ast.Subscript) and isinstance(
+                        t.slice, ast.Constant) and t.slice.value == key
+                    for t in d.targets):
+                vals.append(d.value)
+        at = set()
+        for v in vals:
+            at |= F.atoms(v, f)
+        srcs = {a for a in at if "['install']" in a}
+        ok = bool(srcs) and all('explicit' in a for a in srcs)
+        ctx.ob(R, 'finalize_pkg_config|auto-fill-{}-from-explicit-installs'
+               .format(key), ok, f.node,
+               'the auto-filled {} are not taken from install.explicit '
+               '({})'.format(key, ', '.join(sorted(srcs))[:100]))
+
+
 def check(ctx):
     from ..rules import unordered
     ctx.not_decided += [
@@ -472,5 +529,6 @@ def check(ctx):
     req_single(ctx)
     bound_tiebreak(ctx)
     pc_vars(ctx)
+    pc_readback(ctx)
     unordered.check(ctx, modules={'bfg9000.builtins.pkg_config',
                                   'bfg9000.versioning'})
